@@ -145,6 +145,11 @@ MATH_FUNCS_1 = ["abs", "floor", "ceil", "round", "trunc", "sqrt", "sin", "cos", 
                 "log1p", "sinh", "cosh", "tanh", "asinh", "acosh", "atanh"]
 MATH_FUNCS_2 = ["pow", "atan2", "min", "max", "hypot", "imul"]
 EXTRA_ARGS = ["undefined", "null", '"2"', '"x"', "true", "[]", "{}"]
+EDGE32 = ["3.4028234663852886e38", "3.4028235e38", "3.4028235677973362e38", "3.4028235677973366e38", "3.402823567797337e38", "3.4028236e38", "3.5e38", "1e39", "1.7014118346046923e38",
+          "1.401298464324817e-45", "7.006492321624085e-46", "7.006492321624086e-46", "7.00649232162408e-46", "2.1019476964872256e-45", "1.1754943508222875e-38", "1.1754942106924411e-38",
+          "16777216", "16777217", "16777218", "16777219", "1.0000000596046448", "1.00000005960464477", "1.00000005960464478", "1.0000001788139343", "0.1", "0.30000001192092896",
+          "2147483647", "2147483648", "2147483649", "4294967295", "4294967296", "4294967297", "2147483647.5", "4294967295.5", "9007199254740991", "9007199254740993", "0.5", "1.5", "2.5",
+          "0.49999999999999994", "4503599627370495.5", "4503599627370496.5"]
 
 
 def math_progs(live, rng, nrand):
@@ -155,6 +160,11 @@ def math_progs(live, rng, nrand):
             progs.append(("Math:" + f, "special", WRAP % ("Math.%s(%s)" % (f, lit(a))), None))
         for a in EXTRA_ARGS:
             progs.append(("Math:" + f, "special", WRAP % ("Math.%s(%s)" % (f, a)), None))
+        if f in ("fround", "clz32", "imul", "round", "trunc", "floor", "ceil", "sign", "abs", "sqrt", "cbrt"):
+            # narrower formats have edges of their own: around the largest / smallest float32, its rounding ties, the int32 / uint32 edges
+            for a in EDGE32:
+                progs.append(("Math:" + f, "special", WRAP % ("Math.%s(%s)" % (f, a)), None))
+                progs.append(("Math:" + f, "special", WRAP % ("Math.%s(-%s)" % (f, a)), None))
         if f in MATH_FUNCS_2:
             for a in SPECIAL[:30]:
                 for b in SPECIAL[:30]:
